@@ -156,4 +156,39 @@ Lemma src_nearest_eq (u : Z -> res num) t dir max_days :
   src_nearest nzero nltb u t dir max_days = search u dir (Z.to_nat max_days) t.
 Proof. unfold src_nearest. apply src_nearest_loop_eq. f_equal; lia. Qed.
 
+(* ---- constructor validation ---- *)
+Lemma src_fixed_init_eq u st en :
+  src_fixed_init nzero nltb u st en
+  = match mk_fixed nzero nltb u st en with Ok _ => Ok tt | Err => Err | Crash k => Crash k end.
+Proof.
+  unfold src_fixed_init, mk_fixed, nneg, bad_interval.
+  destruct (nltb u nzero); [reflexivity|].
+  destruct st as [s|], en as [e|]; try reflexivity.
+  rewrite Z.gtb_ltb. destruct (e <? s); reflexivity.
+Qed.
+
+Lemma src_check_start_end_eq st en :
+  src_check_start_end st en = if bad_interval st en then Err else Ok tt.
+Proof.
+  unfold src_check_start_end, bad_interval.
+  destruct st as [s|], en as [e|]; try reflexivity.
+  rewrite Z.gtb_ltb. destruct (e <? s); reflexivity.
+Qed.
+
+Lemma src_check_working_days_loop_eq wd0 wd1 l :
+  src_check_working_days_loop1 wd0 wd1 l = if forallb weekday_ok l then Ok tt else Err.
+Proof.
+  induction l as [|v l IH]; cbn [src_check_working_days_loop1 forallb]; [reflexivity|].
+  unfold weekday_ok at 1. rewrite Z.gtb_ltb.
+  destruct (Z.ltb_spec v 0) as [H0|H0], (Z.ltb_spec 6 v) as [H6|H6];
+    destruct (Z.leb_spec 0 v), (Z.leb_spec v 6); cbn; try lia; try reflexivity; apply IH.
+Qed.
+
+Lemma src_check_working_days_eq days :
+  src_check_working_days (Some days) = if forallb weekday_ok days then Ok tt else Err.
+Proof. apply src_check_working_days_loop_eq. Qed.
+
+Lemma src_check_working_days_none : src_check_working_days None = Ok tt.
+Proof. reflexivity. Qed.
+
 End Equiv.
